@@ -33,6 +33,9 @@ partial def toXExpr : SExp → Option XExpr
     let as ← toXArgs args
     pure (.call f as)
   | .list [.atom "fld", .atom c, .atom f] => some (.fld c f)
+  | .list [.atom "idx", .atom a, i] => do
+    let i' ← toXExpr i
+    pure (.idx a i')
   | _ => none
 
 partial def toXArgs : List SExp → Option XArgs
@@ -57,6 +60,13 @@ partial def toXStmt : SExp → Option XStmt
   | .list [.atom "expr", e] => do
     let e' ← toXExpr e
     pure (.expr e')
+  | .list [.atom "asgi", .atom a, i, e] => do
+    let i' ← toXExpr i
+    let e' ← toXExpr e
+    pure (.assignIdx a i' e')
+  | .list [.atom "asgf", .atom sv, .atom f, e] => do
+    let e' ← toXExpr e
+    pure (.assignFld sv f e')
   | .list [.atom "fbcall", .atom c, .list args] => do
     let as ← toXArgs args
     pure (.fbcall c as)
@@ -172,6 +182,25 @@ def parseFb? (tokens : List String) : Option FbDef :=
       let ls' ← ls.mapM toLocal
       let b ← toXBlock body
       pure { name := name, params := ps', vars := ls', body := b }
+    | _ => none
+  | _ => none
+
+/-- `arr <name> <lo> <hi> <TYPE>` / `svar <name> <TypeName> ( ( field TYPE )* )`. -/
+def parseAgg? (tokens : List String) : Option (String × AggDecl) :=
+  match tokens with
+  | ["arr", a, lo, hi, t] => do
+    let l ← lo.toInt?
+    let h ← hi.toInt?
+    let ty ← parseTy? t
+    pure (a, .arr l h ty)
+  | "svar" :: v :: tn :: rest =>
+    match parseSExps rest with
+    | some [.list fs] => do
+      let fs' ← fs.mapM fun x =>
+        match x with
+        | .list [.atom f, .atom t] => (parseTy? t).map fun ty => (f, ty)
+        | _ => none
+      pure (v, .str tn fs')
     | _ => none
   | _ => none
 
